@@ -340,6 +340,9 @@ class DiffOperator(operator.Operator, abc.ABC):
             coeffs = order2_coeffs.setdefault(Pair(v1, v2), {})
             for p1, c1 in self.order1.get(v1, {}).items():
                 for p2, c2 in self.order1.get(v2, {}).items():
+                    if not (common.isscalar(c1) or common.isscalar(c2)):
+                        # array coefficients are aligned from the first axis, like the parameters
+                        c1, c2 = common.expand_arrays(c1, c2, append=True)
                     coeffs[Pair(p1, p2)] = coeffs.get(Pair(p1, p2), 0) + c1 * c2
         order2_current = combine_partials(order2_coeffs, order2_partials)
 
